@@ -140,6 +140,20 @@ theorem walkTree_eq_foldl (f : σ → ν → σ) (t : Tree ν) (s : σ) :
   have := walkFold_remaining f t.size ⟨t, []⟩ s (by simp [remaining, restCtx, Tree.size])
   simpa [walkTree, remaining, restCtx] using this
 
+/-- `getKeyNode` ends at the top of the tree the context node lies in, whatever the context node: key tables are
+per tree (source document or result tree fragment) -/
+theorem keyNode_eq_top (ctx : List (Frame ν)) : ∀ (t : Tree ν) (fuel : Nat), ctx.length ≤ fuel →
+    Loc.keyNode fuel ⟨t, ctx⟩ = ⟨Loc.rebuild t ctx, []⟩ := by
+  induction ctx with
+  | nil => intro t fuel _; cases fuel <;> simp [Loc.keyNode, Loc.parent, Loc.rebuild]
+  | cons f rest ih =>
+    intro t fuel hf
+    cases fuel with
+    | zero => simp at hf
+    | succ n =>
+      simp only [Loc.keyNode, Loc.parent, Loc.rebuild]
+      exact ih _ n (by simpa using hf)
+
 theorem foldl_snoc_eq (l : List ν) (acc : List ν) :
     l.foldl (fun (a : List ν) n => a ++ [n]) acc = acc ++ l := by
   induction l generalizing acc with
